@@ -144,10 +144,12 @@ class Predict2DNumpy(Contract):
 
 def block_entry(e, n, fe, fn, md, nu, npts, nf, row, col):
     """Spec of the 2x2 block Jacobian (east rows/columns first, symmetric off-diagonal)."""
-    p = ite(row < npts, row, row - npts) if is_sym(row) else (row if row < npts else row - npts)
-    t = ite(col < nf, col, col - nf) if is_sym(col) else (col if col < nf else col - nf)
+    sym_r = is_sym(row) or is_sym(npts)
+    sym_c = is_sym(col) or is_sym(nf)
+    p = ite(row < npts, row, row - npts) if sym_r else (row if row < npts else row - npts)
+    t = ite(col < nf, col, col - nf) if sym_c else (col if col < nf else col - nf)
     q = elastic_kernels(e.at(p) - fe.at(t), n.at(p) - fn.at(t), md, nu)
-    if not is_sym(row) and not is_sym(col):
+    if not sym_r and not sym_c:
         top, left = row < npts, col < nf
         return q[0] if (top and left) else (q[1] if (not top and not left) else q[2])
     top, left = row < npts, col < nf
